@@ -1,4 +1,4 @@
-from typing import Mapping, MutableMapping
+from typing import Any, Mapping, MutableMapping
 
 from spec_classes.methods.collections import MAPPING_METHODS
 from spec_classes.types import MISSING
@@ -31,7 +31,17 @@ class MappingMutator(CollectionAttrMutator):
             raise ValueError(
                 f"Attempted to add an invalid item `{repr(item)}` to `{self.attr_spec.qualified_name}`. Expected item of type `{type_label(self.attr_spec.item_type)}`."
             )
+        key_type = self._key_type
+        if not check_type(index, key_type):
+            raise ValueError(
+                f"Attempted to add an invalid key `{repr(index)}` to `{self.attr_spec.qualified_name}`. Expected key of type `{type_label(key_type)}`."
+            )
         self.collection[index] = item
+
+    @property
+    def _key_type(self):
+        type_args = getattr(self.attr_spec.type, "__args__", ())
+        return type_args[0] if len(type_args) == 2 else Any
 
     def add_item(
         self,
